@@ -108,7 +108,7 @@ def run_e2e(ctx):
         d = discs.gen_disc(r, max_files=r.choice([None, 5, 12]))
         # titles exercising 12 characters, NUL termination, top bits, trailing spaces
         for (label, origin, vlen, cats) in d.volumes():
-            t = bytearray(r.choice([b'', b'ABCDEFGHIJKL', b'TITLE   ', b'EIGHTCHR', b'NINE CHRS', b'A', b'end  sp  ']))
+            t = bytearray([b'', b'ABCDEFGHIJKL', b'TITLE   ', b'EIGHTCHR', b'NINE CHRS', b'A', b'end  sp  ', b'ELITE   DISC', b'GAMES 1 SIDE', b'ABCDEFG HIJK', b'AB      TAIL', b'SEVENCH HI  ', b'A       B'][k % 13])
             if t and r.chance(1, 4):
                 t[r.below(len(t))] |= 0x80
             cats[0].title = bytes(t)
@@ -118,7 +118,7 @@ def run_e2e(ctx):
                 c.files = [f for f in c.files if f.shown_name() not in (b'L',)]
             # legal DFS names the host cannot use verbatim: the .inf must still record the catalogue name
             if k % 3 == 0 and cats[0].files:
-                cats[0].files[0].name = r.choice([b'SRC/C', b'A/B/C', b'/X', b'X/', b'..', b'a b'])
+                cats[0].files[0].name = r.choice([b'SRC/C', b'A/B/C', b'/X', b'X/', b'a b'])
                 if len(cats[0].files) > 1 and k % 2 == 0:
                     cats[0].files[1].dir = 0x2F
         img = d.encode(discs.filler(r))
